@@ -45,6 +45,9 @@ pub struct Case {
   /// how the two directory names relate (names that are textual prefixes of each other, nesting)
   #[serde(default)]
   pub naming: u8,
+  /// a live `Index` handle on the original stays open in this process while the copy is opened and driven
+  #[serde(default)]
+  pub hold_original: bool,
 }
 
 pub struct C28;
@@ -132,7 +135,7 @@ impl Property for C28 {
   type Case = Case;
   const ID: &'static str = "C28";
   fn rule() -> String {
-    "cases = a committed filesystem index (4-30 documents, 1-3 segments, deletions, optionally a queued document in wal.log), copied file by file to another path (or renamed); the original is then kept, deleted, or goes on with its own commit + compaction; the copy is opened at its new path and driven with a generated sequence of search / add / delete / commit / compact / reopen. Oracle: (1) the copy opens and its battery of searches equals the original's battery at copy time; (2) the store model continues on the copy: contents after every commit / compaction / reopen equal the model; (3) a byte-for-byte listing of the original directory is unchanged by anything done through the copy (fate Kept), resp. the copy is unaffected by what happens to the original. Non-trivial = the original was deleted, moved or diverged before the copy is used and the copy performed a commit or a compaction; distinct = hash of the case".into()
+    "cases = a committed filesystem index (4-30 documents, 1-3 segments, deletions, optionally a queued document in wal.log), copied file by file to another path (or renamed); the original is then kept, deleted, or goes on with its own commit + compaction; the copy is opened at its new path (in half of the cases while a live handle on the surviving original stays open in the same process) and driven with a generated sequence of search / add / delete / commit / compact / reopen. Oracle: (1) the copy opens and its battery of searches equals the original's battery at copy time; (2) the store model continues on the copy: contents after every commit / compaction / reopen equal the model; (3) a byte-for-byte listing of the original directory is unchanged by anything done through the copy (fate Kept), resp. the copy is unaffected by what happens to the original. Non-trivial = the original was deleted, moved or diverged before the copy is used and the copy performed a commit or a compaction; distinct = hash of the case".into()
   }
   fn assumptions() -> Vec<String> {
     vec!["the copy is taken while no writer is open (as the README's backup advice implies); a queued, synced operation in wal.log belongs to the copy as well".into()]
@@ -154,8 +157,8 @@ impl Property for C28 {
       2 => Just(CopyOp::Compact),
       1 => Just(CopyOp::Reopen),
     ];
-    (world, any::<bool>(), prop_oneof![2 => Just(Fate::Kept), 3 => Just(Fate::Deleted), 2 => Just(Fate::Diverged), 1 => Just(Fate::Moved)], vec(op, 0..10), 0u8..6)
-      .prop_map(|(world, pending_add, fate, ops, naming)| Case { world, pending_add, fate, ops, naming })
+    (world, any::<bool>(), prop_oneof![2 => Just(Fate::Kept), 3 => Just(Fate::Deleted), 2 => Just(Fate::Diverged), 1 => Just(Fate::Moved)], vec(op, 0..10), 0u8..6, any::<bool>())
+      .prop_map(|(world, pending_add, fate, ops, naming, hold_original)| Case { world, pending_add, fate, ops, naming, hold_original })
       .boxed()
   }
   fn run(case: &Case, _ctx: &Ctx) -> Outcome {
@@ -252,6 +255,14 @@ impl Property for C28 {
       _ => {}
     }
     let orig_before = if matches!(case.fate, Fate::Kept | Fate::Diverged) { Some(listing(&orig)) } else { None };
+    // an application may have both directories open: a live handle on the original (when it still exists) must not
+    // make the copy anything but an index of its own
+    let _held_original = if case.hold_original && matches!(case.fate, Fate::Kept | Fate::Diverged) {
+      out.class("original-handle-held-open");
+      open(&orig, k1, b).ok()
+    } else {
+      None
+    };
     // (1) open the copy and compare with the original at copy time
     out.evals += 1;
     let mut idx = match open(&copy, k1, b) {
